@@ -150,9 +150,17 @@ func genKey(t *rapid.T) []string {
 	b64 := func(n int) string {
 		return base64.StdEncoding.EncodeToString(rapid.SliceOfN(rapid.Byte(), n, n).Draw(t, "keybytes"))
 	}
-	switch rapid.IntRange(0, 11).Draw(t, "keykind") {
+	switch rapid.IntRange(0, 12).Draw(t, "keykind") {
 	case 0, 1, 2, 3, 4, 5:
 		return []string{b64(16)}
+	case 12:
+		// 16 bytes, but the unused low bits of the last symbol are not zero: a
+		// lenient base64 decoder accepts it; if the server does, the digest is
+		// still that of the value as sent
+		const alpha = "ABCDEFGHIJKLMNOPQRSTUVWXYZabcdefghijklmnopqrstuvwxyz0123456789+/"
+		k := []byte(b64(16))
+		k[21] = alpha[(strings.IndexByte(alpha, k[21])&0x30)|rapid.IntRange(1, 15).Draw(t, "lowbits")]
+		return []string{string(k)}
 	case 6:
 		n := rapid.SampledFrom([]int{0, 1, 8, 15, 17, 18, 20, 24, 32}).Draw(t, "keylen")
 		return []string{b64(n)}
@@ -230,7 +238,7 @@ func genServerHSCase(t *rapid.T) ServerHSCase {
 	} else {
 		r.Method = rapid.SampledFrom([]string{"POST", "HEAD", "PUT", "get", "OPTIONS", "Get"}).Draw(t, "method")
 	}
-	r.Host = rapid.SampledFrom([]string{"example.com", "example.com:8080", "srv.test", "[::1]:9000", "10.0.0.1"}).Draw(t, "host")
+	r.Host = rapid.SampledFrom([]string{"example.com", "example.com:8080", "srv.test", "[::1]:9000", "10.0.0.1", "kiosk.example.org"}).Draw(t, "host")
 	r.Conn = genTokenLines(t, "upgrade", okFor(1, "conn_ok"), []string{"keep-alive", "close", "TE", "foo"}, []string{"upgrades", "xupgrade", "up-grade", "upgrade2", "upgrad"})
 	r.Upg = genTokenLines(t, "websocket", okFor(2, "upg_ok"), []string{"h2c", "foo", "IRC"}, []string{"websockets", "xwebsocket", "web-socket", "websocket2", "websocke"})
 	if okFor(3, "ver_ok") {
@@ -260,7 +268,12 @@ func genServerHSCase(t *rapid.T) ServerHSCase {
 			r.Origin = rapid.SampledFrom([][]string{nil, {"http://" + r.Host}, {"https://evil.example.net"}}).Draw(t, "origin_any")
 		} else {
 			c.CheckOrigin = ""
-			r.Origin = []string{rapid.SampledFrom([]string{"https://evil.example.net", "http://x" + r.Host, "http://" + r.Host + ".evil.net", "null"}).Draw(t, "origin_foreign")}
+			// incl. hosts that equal Host only under Unicode (not ASCII) case folding
+			kelvin := strings.Replace(strings.Replace(r.Host, "k", "\u212a", 1), "s", "\u017f", 1)
+			r.Origin = []string{rapid.SampledFrom([]string{"https://evil.example.net", "http://x" + r.Host, "http://" + r.Host + ".evil.net", "null", "http://" + kelvin, "https://" + strings.ToUpper(kelvin)}).Draw(t, "origin_foreign")}
+			if r.Origin[0] == "http://"+r.Host {
+				r.Origin[0] = "https://evil.example.net" // Host has neither k nor s
+			}
 		}
 	}
 	r.Proto = rapid.SampledFrom([][]string{nil, nil, {"chat"}, {"chat, superchat"}, {"superchat,chat"}, {" v2 ,  chat "}, {"other"}, {"chat", "v2"}, {"Chat"}}).Draw(t, "proto")
@@ -523,6 +536,19 @@ func checkC12(c ServerHSCase, o *Obs) error {
 		o.Class("unspecified_request")
 		if conn == nil && w.hijacked != 0 && tr.Closed == 0 {
 			return errors.New("Upgrade failed after hijacking without closing the connection")
+		}
+		if conn != nil && len(c.Req.Key) == 1 {
+			// whether such a request is admitted is not stated; if it is, the 101
+			// still has to prove that the server saw THIS key
+			resp, perr := wsref.ParseResponseStrict(tr.Wrote)
+			if perr != nil {
+				return fmt.Errorf("101 response is not well-formed: %v; bytes: %q", perr, abbrevStr(tr.Wrote, 300))
+			}
+			sent := strings.Trim(c.Req.Key[0], " \t")
+			if acc := resp.Get("Sec-WebSocket-Accept"); len(acc) != 1 || acc[0] != wsref.AcceptKey(sent) {
+				return fmt.Errorf("request admitted with key %q, but Sec-WebSocket-Accept is %q, want the digest of the key as sent, %q", sent, acc, wsref.AcceptKey(sent))
+			}
+			o.Class("unspecified_admitted_accept_checked")
 		}
 		return nil
 	}
